@@ -90,6 +90,24 @@ def parseTerm : Sexp → Option (Term V)
       some (.binary (← opIdx op) (← parseTerm l) (← parseTerm r))
   | s => (parseTensor s).map .tensor
 
+def parseLTerm : Sexp → Option (LTerm V)
+  | Sexp.list [Sexp.atom "var", n, s] => do some (.var (← n.asStr?) (← s.asNat?))
+  | Sexp.list [Sexp.atom "binary", Sexp.atom op, l, r] => do
+      some (.binary (← opIdx op) (← parseLTerm l) (← parseLTerm r))
+  | Sexp.list [Sexp.atom "align", t, names] => do some (.align (← parseLTerm t) (← names.asStrs?))
+  | Sexp.list [Sexp.atom "contract", Sexp.atom rop, Sexp.atom bop, rv, l, r] => do
+      some (.contract (← opIdx rop) (← opIdx bop) (← parseInputs rv) (← parseLTerm l) (← parseLTerm r))
+  | s => (parseTensor s).map .tensor
+
+def redV (k : Nat) (xs : List V) : V :=
+  match xs with
+  | [] => some 0
+  | x :: rest => rest.foldl (opsV k) x
+
+def LTerm.isAlign : LTerm V → Bool
+  | .align _ _ => true
+  | _ => false
+
 def showExcT (r : Except Err (Tensor V)) : String :=
   match r with
   | .ok t => "ok " ++ toString (showTensor t)
@@ -120,6 +138,8 @@ def envOf (names : List String) (vals : List Nat) : String → Nat :=
   C19 materialize TERM                         materialize then eager evaluation
   C19 denotetable TERM (inputs)                spec: value at every point of the box
   C19 tensortable TENSOR (inputs)              value of a tensor at every named point of the box
+  C19 lazyalign LTERM ("name"…) (inputs)       Funsor.align / Align.align / Contraction.align on a lazy term
+  C19 deltaalign ("term name"…) ("name"…)     Delta.align: order of the terms
 -/
 def handle (args : List Sexp) : String :=
   match args with
@@ -184,6 +204,27 @@ def handle (args : List Sexp) : String :=
       let vals := (points (i.map (·.2))).flatMap fun p =>
         (points t.outShape).map fun ev => t.atEnv (envOf names p) ev
       "ok " ++ toString (Sexp.list (vals.map showV))
+    | _, _ => "err bad-args"
+  | [Sexp.atom "lazyalign", t, names, inputs] =>
+    -- x.align(names) on a lazy term: result keys, whether it is an Align wrapper, and the value
+    -- table of the ORIGINAL and of the ALIGNED term over the box `inputs`
+    match parseLTerm t, names.asStrs?, parseInputs inputs with
+    | some t, some names, some i =>
+      match t.alignT names with
+      | none => "ok (raise AssertionError)"
+      | some t' =>
+        let ks := i.map (·.1)
+        let tab := fun (u : LTerm V) => (points (i.map (·.2))).map fun p =>
+          u.denote ofNatV opsV redV (envOf ks p)
+        "ok " ++ toString (Sexp.list [Sexp.list (t'.keys.map Sexp.str), Sexp.ofBool (LTerm.isAlign t'),
+          Sexp.list ((tab t).map showV), Sexp.list ((tab t').map showV)])
+    | _, _, _ => "err bad-args"
+  | [Sexp.atom "deltaalign", terms, names] =>
+    match terms.asStrs?, names.asStrs? with
+    | some ts, some names =>
+      match deltaAlign (ts.map fun n => (n, ())) names with
+      | .ok r => "ok " ++ toString (Sexp.list (r.map fun p => Sexp.str p.1))
+      | .error e => showErr e
     | _, _ => "err bad-args"
   | _ => "err bad-request"
 
